@@ -153,6 +153,71 @@ def check_rle(rep, tier, rng, drv, run, parts=("rt", "ops")):
     rep.sample({"op": "rle_ops", "case": lines[-1][:200]})
 
 
+def check_rle_encoder_api(rep, tier, rng, drv, run):
+    """The streaming encoder API (init / put / put_repeat / flush), which nothing in the library calls with
+    put_repeat: segment lists with zero-length, short, group-sized and long repeats of equal and different values,
+    at every position (first, middle, last before the flush).  Oracle: decode_all of the produced bytes returns the
+    flattened sequence (inside the driver); tie: the bytes equal carquet_rle_encode_all's and the extracted
+    RleModel.encode_all's on the flattened sequence (put_repeat is a loop of put)."""
+    lines, flats = [], []
+    n = 1500 if tier == "quick" else 20000
+    for i in range(n):
+        w = rng.choice([1, 1, 2, 3, 4, 7, 8, 9, 16, 20, 32]) if i % 3 else rng.randrange(1, 33)
+        top = (1 << w) - 1
+        segs, flat = [], []
+        prev = rng.randint(0, top)
+        for _ in range(rng.randrange(1, 9)):
+            v = prev if rng.random() < 0.25 else rng.randint(0, min(top, 3) if rng.random() < 0.5 else top)
+            r = rng.random()
+            if r < 0.35:
+                segs.append("p%d" % v); flat.append(v)
+            else:
+                c = rng.choice([0, 0, 0, 1, 2, 6, 7, 8, 9, 15, 16, 17, 63, 64, 65]) if rng.random() < 0.85 else rng.randrange(0, 400)
+                segs.append("r%dx%d" % (v, c)); flat += [v] * c
+            prev = v
+        if rng.random() < 0.3:                       # a zero-length run of ANOTHER value right before the flush
+            segs.append("r%dx0" % ((prev + 1) & top))
+        lines.append("rle_encops %d %s" % (w, " ".join(segs))); flats.append((w, flat))
+    # bounded-exhaustive: every list of <= 4 segments over {p0, p1, r0x0, r1x0, r0x1, r1x7, r0x8, r1x9} at width 1
+    alpha = ["p0", "p1", "r0x0", "r1x0", "r0x1", "r1x7", "r0x8", "r1x9"]
+    import itertools
+    for L in range(1, 5 if tier == "quick" else 6):
+        for segs in itertools.product(alpha, repeat=L):
+            flat = []
+            for t in segs:
+                if t[0] == "p":
+                    flat.append(int(t[1:]))
+                else:
+                    v, c = t[1:].split("x"); flat += [int(v)] * int(c)
+            lines.append("rle_encops 1 " + " ".join(segs)); flats.append((1, flat))
+    impl, p1 = run_sharded(drv, lines)
+    for pr in p1:
+        rep.violation("RLE streaming encoder crashed / sanitizer report: %s" % pr[2][-500:], {"case": pr[3]})
+    mlines = ["rle_enc %d %s" % (w, " ".join(map(str, f))) for w, f in flats]
+    model, p2 = run_sharded(run, mlines)
+    for pr in p2:
+        rep.tie_broken("model runner died: %s" % pr[2][-300:], pr[3])
+    zero_tail = 0
+    for li, (w, flat), a, m in zip(lines, flats, impl, model):
+        rep.count(li, nontrivial=len(flat) > 0)
+        zero_tail += li.endswith("x0")
+        t = a.split()
+        if len(t) != 5 or t[0] != "OK":
+            rep.violation("RLE streaming encoder (put / put_repeat / flush) failed on a legal call sequence: %s" % a[:200],
+                          {"case": li, "impl": a[:2000], "expected_suffix": "firstdiff=-1"}); continue
+        if t[4] != "firstdiff=-1" or t[3] != "n=%d" % len(flat):
+            rep.violation("RLE streaming encoder: decode_all of the bytes produced by put / put_repeat / flush does not return the "
+                          "values put (first differing index %s of %d values, width %d)" % (t[4].split("=")[1], len(flat), w),
+                          {"case": li, "impl": a[:2000], "expected_suffix": "firstdiff=-1"}); continue
+        if t[1] != t[2]:
+            rep.tie_broken("put/put_repeat/flush produce other bytes than carquet_rle_encode_all on the flattened sequence "
+                           "(the model describes one encoder): %s vs %s" % (t[1][:60], t[2][:60]), li)
+        elif m.split() != ["OK", t[1]]:
+            rep.tie_broken("RleModel.encode_all differs from the streaming encoder's bytes: model %s impl %s" % (m[:80], t[1][:80]), li)
+    rep.cov.setdefault("input_distribution", {}).update({"rle_encoder_api": len(lines), "rle_encoder_api_zero_run_before_flush": zero_tail})
+    rep.sample({"op": "rle_encops", "case": lines[7][:200]})
+
+
 def check_rle_long_runs(rep, tier, rng, drv):
     """Round trips whose run header needs 3, 4 or 5 varint bytes, through all three one-shot decoders (decode_all,
     decode_levels, decode_levels_prefixed); the comparison with the input happens inside the driver."""
@@ -275,6 +340,7 @@ def run(tier):
         pass
     check_rle(rep, tier, rng, drv, run_)
     check_rle_long_runs(rep, tier, rng, drv)
+    check_rle_encoder_api(rep, tier, rng, drv, run_)
     try:
         import c11_enc2
     except ImportError:
@@ -301,6 +367,8 @@ def replay(path):
     if err:
         print(err[-2000:])
     t = case.split()
+    if t[0] == "rle_encops" and out:
+        return 0 if out[0].endswith("firstdiff=-1") else 1
     if t[0] == "rle_rtrun" and out:
         return 0 if "all=-1 levels=-1 prefixed=-1" in out[0] else 1
     if t[0] == "rle_rt" and out:
